@@ -18,6 +18,7 @@ type RangeLoop struct {
 	Exit   *ssa.BasicBlock
 	Index  ssa.Value // value used as the element index inside the body
 	Iter   *ssa.Next
+	set    map[*ssa.BasicBlock]bool
 }
 
 // rangeLoops finds the loops of fn that visit every element of a value from
@@ -154,14 +155,88 @@ func indexLoop(phi *ssa.Phi) *RangeLoop {
 	return &RangeLoop{Kind: "indexloop", Phi: phi, Over: over, Header: blk, Body: blk.Succs[0], Exit: blk.Succs[1], Index: phi}
 }
 
-// inLoop reports whether block b belongs to the loop (reachable from the body
-// without passing the header, and able to reach the header again or not — we
-// use: dominated by Body and not dominated by Exit).
+// blocks computes the natural loop of the header: the header plus every block
+// that can reach a back-edge source without passing through the header.
+func (l *RangeLoop) blocks() map[*ssa.BasicBlock]bool {
+	if l.set != nil {
+		return l.set
+	}
+	l.set = map[*ssa.BasicBlock]bool{l.Header: true}
+	var work []*ssa.BasicBlock
+	for _, pr := range l.Header.Preds {
+		if l.Header.Dominates(pr) && pr != l.Header {
+			work = append(work, pr)
+		}
+	}
+	for len(work) > 0 {
+		b := work[len(work)-1]
+		work = work[:len(work)-1]
+		if l.set[b] {
+			continue
+		}
+		l.set[b] = true
+		for _, pr := range b.Preds {
+			work = append(work, pr)
+		}
+	}
+	return l.set
+}
+
+// inLoop reports whether block b belongs to the loop body (blocks from which
+// the loop can continue) or is dominated by the body without being able to
+// continue (early-return blocks inside the loop).
 func (l *RangeLoop) inLoop(b *ssa.BasicBlock) bool {
-	if b == l.Header {
+	if l.blocks()[b] {
 		return true
 	}
-	return (b == l.Body || l.Body.Dominates(b)) && !(b == l.Exit || (l.Exit.Dominates(b) && !l.Body.Dominates(l.Exit)))
+	// a block only reachable from inside the loop body that ends the function
+	// (return/panic) counts as inside
+	if (b == l.Body || l.Body.Dominates(b)) && b != l.Exit && !l.Exit.Dominates(b) {
+		return true
+	}
+	return false
+}
+
+// earlyExits lists the loop blocks other than the header that have a
+// successor outside the loop (break, goto); returns do not count.
+func (l *RangeLoop) earlyExits() []*ssa.BasicBlock {
+	var out []*ssa.BasicBlock
+	set := l.blocks()
+	for b := range set {
+		if b == l.Header {
+			continue
+		}
+		for _, s := range b.Succs {
+			if !set[s] && !l.returnsOnly(s) {
+				out = append(out, b)
+				break
+			}
+		}
+	}
+	return out
+}
+
+// returnsOnly: every path from s ends in return/panic without reaching the
+// loop exit (an in-loop error return block).
+func (l *RangeLoop) returnsOnly(s *ssa.BasicBlock) bool {
+	seen := map[*ssa.BasicBlock]bool{}
+	var rec func(b *ssa.BasicBlock) bool
+	rec = func(b *ssa.BasicBlock) bool {
+		if b == l.Exit || l.blocks()[b] {
+			return false
+		}
+		if seen[b] {
+			return true
+		}
+		seen[b] = true
+		for _, x := range b.Succs {
+			if !rec(x) {
+				return false
+			}
+		}
+		return true
+	}
+	return rec(s)
 }
 
 // loopOver returns the range loop of fn whose ranged value (after stripping
